@@ -76,7 +76,7 @@ def select(behs, per, rnd, cap):
 def model_checks(ctx, sd):
     q = ctx.quick()
     # 1. repaired design (Dev = {}): one full copy with every fault; restore and import
-    ctx.write_cfg(sd, "MC1.cfg", "Spec", consts(MaxPrep=ctx.pick(4, 5), MaxFiles=ctx.pick(3, 4), MaxRace=ctx.pick(1, 2)), INV, "Bounded", PROPS)
+    ctx.write_cfg(sd, "MC1.cfg", "Spec", consts(NP=ctx.pick(2, 3), MaxPrep=5, MaxFiles=4, MaxRace=ctx.pick(1, 2)), INV, "Bounded", PROPS)
     r = ctx.tlc_check(sd, "CopyShard", "MC1.cfg", workers=8, timeout=ctx.pick(600, 1500), coverage=not q)
     if not q and r.get("zero_coverage"):
         raise Infra("actions never taken in CopyShard: %s" % r["zero_coverage"])
@@ -140,6 +140,12 @@ def run(ctx):
         recs2, out2, rc2 = runner(todo)
         return {r["sig"] for r in recs2 if r.get("k") == "mismatch"}
 
+    def need_done(done, out, test):
+        # vcheck.process accepts a driver that stopped early when it left a mismatch record - also a known one.  A driver
+        # that could not drive its scenarios and found nothing new must not pass for "held".
+        if not done and not ctx.violations:
+            raise Infra("driver %s did not complete:\n%s" % (test, out[-3000:]))
+
     def net_replay(behs, label, rst=False, index="inmem"):
         p = ctx.write_json("net-%s.json" % label, {"behaviours": behs, "index": index, "max_sigs": 2, "rst": rst})
         return ctx.go_test("services/meta", META_FILES, "^TestVerifCopyShardNet$", env={"VERIF_IN": p}, timeout=1500,
@@ -187,6 +193,7 @@ def run(ctx):
     recs, out, rc = store_replay(sel_store + sel_copy, "replay")
     ok = batch_confirm(recs, lambda behs: store_replay(behs, "confirm"))
     done = ctx.process(recs, out, rc, "TestVerifBackupReplay", lambda rp: rp.get("sig") in ok)
+    need_done(done, out, "TestVerifBackupReplay")
     ctx.cov["traces_validated_against_impl"] += done.get("behaviours", 0)
     recs, out, rc = store_replay([], "race", test="TestVerifBackupRace")
     # schedule dependent; the oracle is a set of prefixes and cannot misfire, so a mismatch is reported as found
@@ -197,6 +204,7 @@ def run(ctx):
     recs, out, rc = net_replay(net, "net")
     ok = batch_confirm(recs, lambda behs: net_replay(behs, "confirm-net"))
     done_n = ctx.process(recs, out, rc, "TestVerifCopyShardNet", lambda rp: rp.get("sig") in ok)
+    need_done(done_n, out, "TestVerifCopyShardNet")
     ctx.cov["traces_validated_against_impl"] += done_n.get("completed", 0)
     if done_n and done_n.get("cuts_done", 0) == 0:
         raise Infra("network replay: no connection was cut")
